@@ -8,6 +8,7 @@ import (
 	"time"
 
 	"github.com/cybergarage/go-redis/redis"
+	"github.com/cybergarage/go-redis/redis/auth"
 	"verif/sim/resp"
 	"verif/sim/sim"
 	"verif/sim/wl"
@@ -352,6 +353,11 @@ func runC08(t *testing.T, tape *sim.Tape, tier string) *Outcome {
 			}
 		}
 	} else {
+		if tape.Draw(8, "ownauthenticator") == 7 {
+			// the application has also registered a password authenticator of its own for the same password
+			cl.Srv.AddAuthenticator(auth.NewClearTextPasswordAuthenticatorWith("", pw))
+			o.stat("runs_with_an_application_password_authenticator", 1)
+		}
 		cl.Srv.SetRequirePass(pw)
 		if err := cl.startServer(); err != nil {
 			o.violate("harness:start", "Start failed: %v", err)
@@ -492,7 +498,7 @@ func init() {
 	register(&Check{
 		ID: "C08", Bubble: true, Run: runC08,
 		Runs:   map[string]int{"quick": 30000, "thorough": 1000000},
-		Rule:   "a case is one run of the full server with a required password (set before Start, or by Restart after one to three earlier generations each without password, with another password - which then is one of the wrong candidates - or already with the final one) and 1..3 connections (in a quarter of the runs the TLS port is open too and each connection goes through it with probability 1/2, as a real crypto/tls client with an accepted certificate; in half of those runs the TLS clients share a session cache and connect one after the other, so later ones resume) each sending 1..8 (thorough ..16) requests over {AUTH with the exact password, with each dictionary candidate ('' , prefixes, extension, case swap, NUL/CRLF/space variants, doubled, periodic or padded continuations whose length equals the real one modulo 2^8), null/missing argument, two-argument forms (also the password split over user name and password, around its separator characters), SELECT, CONFIG SET/GET, PING/ECHO, data commands} under a seeded request- and byte-granularity interleaving; a per-connection authorization model is checked inside every handler call and over every reply; distinct = distinct event-log hashes; all runs non-trivial",
+		Rule:   "a case is one run of the full server with a required password (set before Start, or by Restart after one to three earlier generations each without password, with another password - which then is one of the wrong candidates - or already with the final one) and 1..3 connections (in a quarter of the runs the TLS port is open too and each connection goes through it with probability 1/2, as a real crypto/tls client with an accepted certificate; in half of those runs the TLS clients share a session cache and connect one after the other, so later ones resume) each sending 1..8 (thorough ..16) requests over {AUTH with the exact password, with each dictionary candidate ('' , prefixes, extension, case swap, NUL/CRLF/space variants, doubled, periodic or padded continuations whose length equals the real one modulo 2^8), null/missing argument, two-argument forms (also the password split over user name and password, around its separator characters), SELECT, CONFIG SET/GET, PING/ECHO, data commands} under a seeded request- and byte-granularity interleaving; in one run in eight of the others the application has also registered a password authenticator of its own for the same password; a per-connection authorization model is checked inside every handler call and over every reply; distinct = distinct event-log hashes; all runs non-trivial",
 		Real:   []string{"redis.Server Start (authenticator registration), accept loop, connection goroutines, AUTH executor, Server.Auth, auth.AuthManager, ClearTextPasswordAuthenticator, gate in executeCommand"},
 		Stub:   []string{"network: simulated", "user command handler: recording double (parks at entry)"},
 		Assume: []string{"two-argument AUTH with user '' or 'default' and the exact password may succeed or fail", "QUIT before authorization is not generated"},
